@@ -28,6 +28,7 @@ LEVEL_TEXT = (
     "columns, running product) and the form of the end-point slack. np.arange's own end-point arithmetic is not decided."
     ' A tolerant comparison (isclose / abs(...) < eps) in the validator, a grid filtered by exact comparison with the bound, and a rounding re-binding of the arange column are findings.'
     ' A grid column laid out by np.linspace between the bounds is a finding (spacing equals the precision only for ranges that are a whole number of steps).'
+    " The module-state rule of C05 kept to search_space.py is included: a search space is a function of its own specification."
 )
 TECHNIQUE = "finite order-class abstract evaluation with licence check + formula normal form of the grid constructor"
 
